@@ -1,7 +1,7 @@
 SPECIFICATION Spec
 CONSTANTS Cfg <- TheCfg
- Wedge = TRUE
- MakeOnPending = "cancel"
+ Wedge = FALSE
+ MakeOnPending = "replace"
  FireDropsBs = FALSE
  MaxN = 4
 CONSTRAINT Bound
@@ -10,5 +10,6 @@ INVARIANT DoorsWellFormed
 INVARIANT StoreCovers
 INVARIANT GenUnique
 INVARIANT StoreIsLive
+INVARIANT RelockScheduledUndisturbed
 PROPERTY RestartInvisible
 CHECK_DEADLOCK FALSE
